@@ -183,6 +183,16 @@ HELPERS = [
     ("lastidx", [("int[]", "v")], "int", [("for", ("decl", "int", "i", L("int", 0)), ("bin", ">=", ("idx", "v", I), ("un", "-", L("int", 50))), ("assignx", "i", ("bin", "+", I, L("int", 1))),
                                                [("if", ("bin", "==", I, L("int", 2)), [("ret", ("bin", "+", ("idx", "v", I), L("int", 2)))], None)]),
                                           ("ret", ("un", "-", L("int", 3)))]),
+    ("wfind", [("int", "n")], "int", [("decl", "int", "k", L("int", 0)),
+                                      ("while", ("call", "lt", [("var", "k"), L("int", 5)]),
+                                       [("if", ("bin", "==", ("var", "k"), ("var", "n")), [("ret", ("bin", "+", ("bin", "*", ("var", "k"), L("int", 10)), L("int", 3)))], None),
+                                        ("assign", "k", ("call", "step", [("var", "k")]))]),
+                                      ("ret", ("un", "-", L("int", 4)))]),
+    # nested loops: a return from the inner for must also skip the OUTER loop's increment and condition (both calls)
+    ("nfind", [("int", "n")], "int", [("for", ("decl", "int", "i", L("int", 0)), ("call", "lt", [I, L("int", 3)]), ("assignx", "i", ("call", "step", [I])),
+                                           [("for", ("decl", "int", "j", L("int", 0)), ("bin", "<", ("var", "j"), L("int", 3)), ("assignx", "j", ("call", "step", [("var", "j")])),
+                                             [("if", ("bin", "==", ("bin", "+", ("bin", "*", I, L("int", 3)), ("var", "j")), ("var", "n")), [("ret", ("bin", "+", ("bin", "*", I, L("int", 100)), ("var", "j")))], None)])]),
+                                      ("ret", ("un", "-", L("int", 5)))]),
     ("half", [("int", "n")], "float", [("ret", ("bin", "/", ("var", "n"), L("int", 2)))]),
     ("wide", [("long", "n")], "long", [("ret", ("bin", "*", ("var", "n"), L("long", 3)))]),
 ]
@@ -213,6 +223,8 @@ ATOMS = [
     ("assign", "x", ("call", "ffind", [Y])),
     ("assign", "y", ("call", "cfind", [X])),
     ("assign", "x", ("call", "lastidx", [("var", "a")])),
+    ("assign", "y", ("call", "wfind", [X])),
+    ("assign", "x", ("call", "nfind", [Y])),
 ]
 
 
